@@ -181,6 +181,18 @@ func runC19(s *Sim) {
 			model[a] = v
 		}
 	}
+	// one run in five holds a stretch long enough for the largest reads a frame can carry, and aims reads at it
+	longBase := -1
+	if wl.Chance(1, 5) {
+		longBase = wl.Draw(200)
+		n := 110 + wl.Draw(40)
+		regs.AddReg(longBase, n)
+		for a := longBase; a < longBase+n; a++ {
+			v := uint16(wl.Raw())
+			_ = regs.WriteReg(a, v)
+			model[a] = v
+		}
+	}
 	var addrs []int
 	for a := range model {
 		addrs = append(addrs, a)
@@ -385,6 +397,12 @@ func runC19(s *Sim) {
 		default:
 			cnt = 1 + wl.Draw(maxRegs)
 		}
+		bitsTop := false
+		if longBase >= 0 && wl.Chance(1, 2) {
+			base = longBase + wl.Draw(6)
+			cnt = maxRegs - wl.Draw(2)
+			bitsTop = true
+		}
 		uid := id
 		if wl.Chance(1, 12) {
 			uid = id + 1 // another unit: nobody answers
@@ -507,6 +525,13 @@ func runC19(s *Sim) {
 			n := 1 + wl.Draw(maxBits)
 			if wl.Chance(1, 3) {
 				n = 1 + wl.Draw(24)
+			}
+			if bitsTop {
+				// the largest bit reads whose response still fits the client's 200-byte frame: TCP 7+1+1+191, RTU 1+1+1+195+2
+				n = 195*8 - wl.Draw(10)
+				if tcp {
+					n = 191*8 - wl.Draw(10)
+				}
 			}
 			start := base*16 + wl.Draw(16)
 			var got []bool
